@@ -44,9 +44,15 @@ class Lock:
 
 
 # ---------------------------------------------------------------- Coq
-def coq_build(targets=None, clean=False):
-    """full .vo build of the hand-written development (never -vos). Returns (ok, log)."""
+def coq_build(targets=None, clean=False, remove=None):
+    """full .vo build of the hand-written development (never -vos). Returns (ok, log).
+    [remove]: files deleted under the lock first (forces a target to be re-checked)."""
     with Lock("coq"):
+        for f in remove or []:
+            try:
+                os.remove(f)
+            except OSError:
+                pass
         rc, out = sh([os.path.join(ROOT, "tools", "mkcoqproject.sh")])
         if rc != 0:
             return False, out
@@ -105,11 +111,7 @@ def check_props(pid, extra_files=None):
     Returns dict(ok, theorems, obligations, discharged, assumptions, log, forbidden)."""
     res = dict(ok=False, theorems=[], obligations=0, discharged=0, assumptions={}, log="", forbidden=[])
     props = os.path.join(COQ, "Props", pid + ".v")
-    try:
-        os.remove(props + "o")
-    except OSError:
-        pass
-    ok, log = coq_build(["Props/%s.vo" % pid])
+    ok, log = coq_build(["Props/%s.vo" % pid], remove=[props + "o"])
     res["log"] = log[-6000:]
     files = coq_deps(props) + list(extra_files or [])
     nlemmas = 0
